@@ -225,6 +225,13 @@ def run(ctx):
     more = SYMS + EXTRA_SYMS
     docs += ['\n'.join(rng1.choice(more) for _ in range(rng1.randint(2, 8))) for _ in range(3000 if quick else 40000)]
     docs += ['\n'.join(rng1.choice(SYMS) for _ in range(rng1.randint(10, 130))) for _ in range(150 if quick else 2000)]
+    # every line indented (so that the common indentation is stripped) and a line boundary other than \\n inside those columns
+    for _ in range(1500 if quick else 20000):
+        body = [rng1.choice(SYMS) for _k in range(rng1.randint(2, 7))]
+        pad = ' ' * rng1.choice([2, 4, 8])
+        body = [pad + l if l else l for l in body]
+        body.insert(rng1.randrange(len(body) + 1), rng1.choice(['\x0c', '\x1c', '\x85', '\x0b', ' \x0c', '\x1d  ', '\x0c' + pad + 'after']))
+        docs.append('\n'.join(body))
     chunks = [docs[i:i + 400] for i in range(0, len(docs), 400)]
     results = [r for ch in common.pmap(_worker, chunks) for r in ch]
     nparsed = 0
